@@ -29,10 +29,12 @@ theorem readUntilAnyPrompt_returns_loss (fuel : Nat) (cfg : Cfg) (prompts : List
 
 /-- `ExactMatchInput`: the echo loop reports the loss exactly like the others -/
 theorem readUntilExplicit_returns_loss (fuel : Nat) (cfg : Cfg) (b : Bytes) (e : String)
-    (pre rest : List Ev) (hm : cfg.mult = Gen.Channel.inputSearchDepthMultiplier) (hx : cfg.exact = true)
+    (pre rest : List Ev) (hb : b ≠ []) (hm : cfg.mult = Gen.Channel.inputSearchDepthMultiplier)
+    (hx : cfg.exact = true)
     (hq : Quiet (echoPred cfg b) [] pre) (hf : (pre ++ .err e :: rest).length + 1 ≤ fuel) :
     readUntilExplicit fuel cfg (pre ++ .err e :: rest) b = some ([], some e, rest) := by
-  rw [generated_ReadUntilExplicit_eq fuel cfg b _ hm hx hf, readUntilEv_err_after _ e pre rest [] hq.1 hq.2]; rfl
+  rw [generated_ReadUntilExplicit_eq fuel cfg b _ hm hx hf, if_neg hb,
+    readUntilEv_err_after _ e pre rest [] hq.1 hq.2]; rfl
 
 theorem readUntilFuzzy_returns_loss (fuel : Nat) (cfg : Cfg) (b : Bytes) (e : String)
     (pre rest : List Ev) (hb : b ≠ []) (hm : cfg.mult = Gen.Channel.inputSearchDepthMultiplier)
